@@ -211,7 +211,11 @@ class LocateOne(Contract):
         if not case["tol"]:
             return {IndexError: absent(S, v, x)}
         if case["kind"] == "O":
-            return {TypeError: True}
+            # A tolerance on a string axis (only reachable by calling locate_one directly; AbstractAxis.loc drops tol for
+            # non-numeric axes first).  No property fixes the exception type; what must never happen is a silently returned
+            # position: an exception is ALWAYS raised -- TypeError when there is a label to subtract from, and on an empty
+            # axis whatever the empty search raises (ValueError today).
+            return {TypeError: (n > 0, True), ValueError: (n == 0, n == 0)}
         # nothing within tolerance  <=>  every label is farther than tol  (an empty axis has no nearest label)
         # (an empty axis has no nearest label: IndexError or ValueError are both accepted there)
         return {IndexError: S.forall(0, n, lambda i: self._dist(S, env, i) > env["tol"]),
